@@ -415,6 +415,9 @@ func (env *SpecEnv) binary(x SBinary) SpecVal {
 				}
 			}
 			e = Eq(a.T, b.T)
+			if a.T.Sort == "BSeq" && !strings.Contains(a.T.S, "q$") && !strings.Contains(b.T.S, "q$") && a.T.S != b.T.S {
+				env.fx.bseqExtensional(a.T, b.T)
+			}
 		}
 		if x.Op == "!=" {
 			e = Not(e)
